@@ -1,14 +1,14 @@
 #!/bin/bash
-# try_mutation.sh <mutation dir> <prop> [<prop>...] : apply the seeded change to /repo, run the named checks
-# (tier from $TIER, default quick), undo it straight afterwards.  Prints one line per check.
+# try_mutation.sh <mutation dir> <prop> [<prop>...] : apply the seeded change to a SCRATCH worktree of /repo and run the
+# named checks against it (VERIF_REPO; /repo itself is never touched), then remove the worktree.
 D=$(readlink -f "$1"); shift
-cd /repo || exit 2
-[ -n "$(git status --porcelain)" ] && { echo "/repo is dirty"; exit 2; }
-git apply "$D/patch.diff" || { echo "patch does not apply"; exit 2; }
-trap 'git -C /repo checkout -- . ; git -C /repo clean -fdq' EXIT
+W=/tmp/mrepo_$$
+git -C /repo worktree add --detach $W HEAD -f >/dev/null 2>&1 || { echo "worktree failed"; exit 2; }
+trap 'git -C /repo worktree remove --force '$W' >/dev/null 2>&1; cd /verif/harness && GOFLAGS=-mod=mod GOPROXY=off GOSUMDB=off GOTOOLCHAIN=local go run ./cmd/extract -repo /repo -out /verif/lean/Generated/Facts.lean -funcs /verif/lean/Generated/Funcs.lean >/dev/null 2>&1' EXIT
+git -C $W apply "$D/patch.diff" || { echo "patch does not apply"; exit 2; }
 cd /verif
 for p in "$@"; do
-  out=$(./check $p --tier ${TIER:-quick} 2>&1); rc=$?
+  out=$(VERIF_REPO=$W ./check $p --tier ${TIER:-quick} 2>&1); rc=$?
   echo "$(basename $(dirname $D))/$(basename $D) check=$p rc=$rc :: $(echo "$out" | grep -m1 -E 'VIOLATION|^OK' | cut -c1-200)"
   if [ $rc -ne 0 ]; then
     r=$(echo "$out" | grep -m1 -o 'replay=[^ ]*' | cut -d= -f2)
